@@ -1,4 +1,6 @@
 import Modbus.Model.Codec
+import Modbus.Lemmas.Bytes
+import Modbus.Lemmas.Encode
 /-
 C18 — function-code, exception-code and coil-value tables are exact.
 All statements are over finite types; they are proved by case analysis on the table, for every
@@ -8,9 +10,9 @@ namespace Modbus.C18
 
 /-- converting any byte to a function code and back returns the same byte -/
 theorem value_new (b : UInt8) : (FunctionCode.new b).value = b := by
-  unfold FunctionCode.new
-  repeat' split
-  all_goals first | rfl | (subst_vars; rfl)
+  revert b
+  apply byte_cases
+  decide +kernel
 
 /-- … also for a code built with the `Custom` constructor -/
 theorem value_custom (b : UInt8) : (FunctionCode.custom b).value = b := rfl
@@ -33,9 +35,93 @@ theorem new_other (b : UInt8)
   simp only [List.mem_cons, List.not_mem_nil, or_false, not_or] at h
   simp [FunctionCode.new, h]
 
-/-- the function code derived from a request is the first byte of its encoding (every encodable kind, every buffer) -/
+/-- the function code derived from a request is the first byte of its encoding
+    (every request the encoder accepts, every buffer) -/
 theorem req_fc_first_byte (r : Request) (buf : Bytes) (n : Nat) (out : Bytes)
     (h : r.encode buf = .ok (n, out)) : out[0]? = some r.fc.value := by
-  sorry
+  have he := Request.encodable_of_ok r buf _ h
+  rw [Request.encode_eq r buf he] at h
+  split at h
+  · simp at h
+  · obtain ⟨_, rfl⟩ : n = r.image.length ∧ out = r.image ++ buf.drop r.image.length := by simpa using h.symm
+    cases r <;> simp_all [Request.image, Request.fc, FunctionCode.value, Request.Encodable]
+
+/-- the same for responses -/
+theorem rsp_fc_first_byte (r : Response) (buf : Bytes) (n : Nat) (out : Bytes)
+    (h : r.encode buf = .ok (n, out)) : out[0]? = some r.fc.value := by
+  have he := Response.encodable_of_ok r buf _ h
+  rw [Response.encode_eq r buf he] at h
+  split at h
+  · simp at h
+  · obtain ⟨_, rfl⟩ : n = r.image.length ∧ out = r.image ++ buf.drop r.image.length := by simpa using h.symm
+    cases r <;> simp_all [Response.image, Response.fc, FunctionCode.value, Response.Encodable] <;> (try simp)
+
+/-- the nine defined exception codes -/
+def excCodes : List UInt8 := [1, 2, 3, 4, 5, 6, 8, 10, 11]
+
+/-- the table check for one byte, as a computation -/
+def excRowOk (b : UInt8) : Bool :=
+  match Exception.tryFrom b with
+  | .ok k => k.val == b && excCodes.contains b
+  | .err e => decide (e = .exceptionCode b) && !excCodes.contains b
+  | .panic => false
+
+theorem excRowOk_all (b : UInt8) : excRowOk b = true := by
+  revert b
+  apply byte_cases
+  decide +kernel
+
+/-- exactly the nine defined exception codes are accepted, and each maps back to itself -/
+theorem exception_table (b : UInt8) :
+    (∀ k, Exception.tryFrom b = .ok k → k.val = b ∧ b ∈ excCodes) ∧
+    (b ∈ excCodes → ∃ k, Exception.tryFrom b = .ok k) ∧
+    (b ∉ excCodes → Exception.tryFrom b = .err (.exceptionCode b)) ∧
+    Exception.tryFrom b ≠ .panic := by
+  have h := excRowOk_all b
+  unfold excRowOk at h
+  cases ht : Exception.tryFrom b with
+  | ok k =>
+    rw [ht] at h
+    simp only [Bool.and_eq_true, beq_iff_eq, List.contains_eq_mem, decide_eq_true_eq] at h
+    refine ⟨?_, ?_, ?_, by simp⟩
+    · intro k' hk'; cases hk'; exact h
+    · intro _; exact ⟨k, rfl⟩
+    · intro hn; exact absurd h.2 hn
+  | err e =>
+    rw [ht] at h
+    simp only [Bool.and_eq_true, decide_eq_true_eq, Bool.not_eq_true', List.contains_eq_mem, decide_eq_false_iff_not] at h
+    refine ⟨by simp, ?_, ?_, by simp⟩
+    · intro hm; exact absurd hm h.2
+    · intro _; rw [h.1]
+  | panic => rw [ht] at h; simp at h
+
+theorem exception_roundtrip (k : Exception) : Exception.tryFrom k.val = .ok k := by
+  cases k <;> rfl
+
+/-- the nine discriminants -/
+theorem exception_vals :
+    [Exception.illegalFunction, .illegalDataAddress, .illegalDataValue, .serverDeviceFailure, .acknowledge,
+      .serverDeviceBusy, .memoryParityError, .gatewayPathUnavailable, .gatewayTargetDevice].map Exception.val
+    = [1, 2, 3, 4, 5, 6, 8, 10, 11] := by decide
+
+/-- exactly 0xFF00 and 0x0000 are accepted as coil values, meaning on and off -/
+theorem coil_value (v : UInt16) :
+    (u16CoilToBool v = .ok true ↔ v = 0xFF00) ∧ (u16CoilToBool v = .ok false ↔ v = 0x0000) ∧
+    (v ≠ 0xFF00 → v ≠ 0x0000 → u16CoilToBool v = .err (.coilValue v)) ∧ u16CoilToBool v ≠ .panic := by
+  unfold u16CoilToBool
+  by_cases h1 : v = 0xFF00
+  · subst h1; simp
+  · by_cases h2 : v = 0x0000
+    · subst h2; simp
+    · simp [h1, h2]
+
+theorem bool_to_coil : boolToU16Coil true = 0xFF00 ∧ boolToU16Coil false = 0x0000 := by decide
+
+theorem coil_roundtrip (b : Bool) : u16CoilToBool (boolToU16Coil b) = .ok b := by
+  cases b <;> decide
+
+/-! non-vacuity -/
+example : (Request.writeMultipleCoils 5 ⟨[0xCD, 0x01], 9⟩).encode (List.replicate 8 0) =
+    .ok (8, [0x0F, 0, 5, 0, 9, 2, 0xCD, 0x01]) := by decide
 
 end Modbus.C18
